@@ -75,6 +75,7 @@ FAMILY = [
     # ... with entries that are functools.partial objects differing in the
     # order of their positional arguments / in one keyword value
     ("expression_types_partial", "QUOTE:(:)", "QUOTE:):(", '<p tal:content="quote:name">x</p>', "PageTemplate", "PageTemplate"),
+    ("tokenizer_lambda", "LAMBDA:up", "LAMBDA:low", "<p>Hello</p>", "PageTemplate", "PageTemplate"),
     # ... or classes made by one factory (same module, same qualified name)
     ("expression_types_factory", "FACT:A-", "FACT:B-", '<p tal:content="mark:name">x</p>', "PageTemplate", "PageTemplate"),
     # the content type a template falls back to when its body does not
@@ -84,6 +85,10 @@ FAMILY = [
     # add-on that provides an expression type is upgraded between two runs
     # of the application)
     ("package_version", "1.0", "2.0", '<p tal:content="shout:name">x</p>', "PageTemplate", "PageTemplate"),
+    # ... and the application imports the add-on only after it has compiled
+    # some other template (whatever is remembered from then must not hide
+    # the add-on's version)
+    ("package_version_late", "1.0+late", "2.0+late", '<p tal:content="shout:name">x</p>', "PageTemplate", "PageTemplate"),
     # not an option at all: the names the process had in ``builtins`` when
     # it imported chameleon (gettext.install() in one of two applications
     # sharing the directory) decide how a free name is compiled
@@ -117,6 +122,7 @@ FAMILY_BY_NAME = {f[0]: f for f in FAMILY}
 OPTION_OF = {
     "expression_types_partial": "expression_types",
     "expression_types_factory": "expression_types",
+    "tokenizer_lambda": "tokenizer",
     "extra_builtins_value": "extra_builtins",
     "extra_builtins_more": "extra_builtins",
     "boolean_attributes_unset_vs_empty": "boolean_attributes",
@@ -224,6 +230,16 @@ class ShoutExpr:
             mark=ast.Constant("!" if EXT_VERSION[0] == "1.0" else "?"))
 
 
+# two anonymous functions of one module (both are '<module>.<lambda>')
+def _tok(body, filename=None, _f=str):
+    from chameleon.tokenize import iter_xml
+    return iter_xml(_f(body), filename)
+
+
+TOK_UP = lambda body, filename=None: _tok(body, filename, str.upper)    # noqa: E731
+TOK_LOW = lambda body, filename=None: _tok(body, filename, str.lower)   # noqa: E731
+
+
 def make_mark(mark: str):
     """A factory of expression-type classes: every class it returns has the
     same module and the same qualified name."""
@@ -309,13 +325,16 @@ class C15(CheckBase):
         for k, v in spec.get("config", {}).items():
             if k == "process_builtins":
                 continue
-            if k == "package_version":
+            if k in ("package_version", "package_version_late"):
                 cfg["expression_types"] = dict(
                     self.zt.PageTemplate.expression_types, shout=ShoutExpr)
                 continue
             k = OPTION_OF.get(k, k)
             if k in SET_OPTIONS and v is not None:
                 v = set(v)
+            if k == "tokenizer" and isinstance(v, str) and \
+                    v.startswith("LAMBDA:"):
+                v = TOK_UP if v.endswith("up") else TOK_LOW
             if k == "tokenizer" and v == "iter_text":
                 from chameleon.tokenize import iter_text
                 v = iter_text
@@ -346,8 +365,10 @@ class C15(CheckBase):
         cls = self._cls(spec["cls"])
         if spec.get("config", {}).get("process_builtins"):
             cls = self._knows_builtin(cls)
-        if spec.get("config", {}).get("package_version"):
-            cls = self._with_addon(cls, spec["config"]["package_version"])
+        pv_ = spec.get("config", {}).get("package_version") or \
+            spec.get("config", {}).get("package_version_late")
+        if pv_:
+            cls = self._with_addon(cls, pv_)
         cfg = self._config(spec)
         if loader is not None:
             cfg["loader"] = loader
@@ -385,6 +406,8 @@ class C15(CheckBase):
         that version's, and the process's memo of the package digest is its
         own."""
         key = (cls, version)
+        late = version.endswith("+late")
+        version = version.split("+")[0]
         k = self._gb_classes.get(key)
         if k is None:
             import chameleon.template as tm
@@ -405,10 +428,15 @@ class C15(CheckBase):
                     md.packages_distributions, md.version = pd, ver
                     tm._pkg_digest = None
                     EXT_VERSION[0] = version
-                    # (the add-on is imported in this process: it provides
-                    # the expression type)
                     import sys as _sys
                     import types as _types
+                    if late:
+                        # an earlier template of this process was compiled
+                        # before the add-on was imported
+                        _sys.modules.pop("verif_ext", None)
+                        tm.get_pkg_digest()
+                    # (the add-on is imported in this process: it provides
+                    # the expression type)
                     _sys.modules.setdefault("verif_ext",
                                             _types.ModuleType("verif_ext"))
                     try:
@@ -530,14 +558,16 @@ class C15(CheckBase):
             case["family"] = name
             case["templates"] = [ta, tb]
             mode = ch.pick(["same", "restart", "two"], "mode")
-            if name in ("process_builtins", "package_version"):
+            if name in ("process_builtins", "package_version",
+                        "package_version_late"):
                 mode = "restart"    # (one snapshot / installation per process)
             # a live instance is given the other configuration (attribute
             # assignment, then write(body)): possible when both are string
             # templates of one class and the target passes every option in
             # which they differ
             ca_, cb_ = ta["config"], tb["config"]
-            if name not in ("process_builtins", "package_version") and \
+            if name not in ("process_builtins", "package_version",
+                            "package_version_late") and \
                     "file" not in ta and ta["cls"] == tb["cls"] and \
                     all(k in cb_ and cb_[k] is not None
                         for k in set(ca_) | set(cb_) if ca_.get(k) != cb_.get(k)) \
